@@ -134,8 +134,20 @@ def source(items):
     return '\n'.join(it['text'] for it in items) + '\n'
 
 
+def pseudo(name, *ops):
+    """a pseudo-instruction judged by its documented *effect* (C05), operands = register numbers / ints / label names"""
+    def t(o):
+        return o if isinstance(o, str) else str(o)
+    regpos = {'li': 1, 'mv': 2, 'not': 2, 'neg': 2, 'seqz': 2, 'snez': 2, 'sltz': 2, 'sgtz': 2, 'beqz': 1, 'bnez': 1, 'blez': 1, 'bgez': 1, 'bltz': 1,
+              'bgtz': 1, 'bgt': 2, 'ble': 2, 'bgtu': 2, 'bleu': 2, 'jr': 1, 'jalr': 1}.get(name, 0)
+    toks = ['x%d' % o if i < regpos else t(o) for i, o in enumerate(ops)]
+    return dict(k='pseudo', name=name, ops=list(ops), text=(name + ' ' + ', '.join(toks)).strip())
+
+
 def refs(it):
     k = it['k']
+    if k == 'pseudo':
+        return [o for o in it['ops'] if isinstance(o, str)]
     if k in ('inst', 'cinst') and 'imm' in it['f']:
         return spec_labels(it['f']['imm'])
     if k == 'li':
@@ -197,6 +209,15 @@ def _candidates(it, out, cur, compress):
         if u2 and u2[1][0][3] == 'lui':
             yield u2
         u1 = _units(out, cur, 1)
+        if u1:
+            yield u1
+    elif k == 'pseudo':
+        # a pseudo-instruction of unspecified expansion: one unit, or two when the first is lui / auipc
+        u1 = _units(out, cur, 1)
+        if u1 and u1[1][0][3] in ('lui', 'auipc') and it['name'] in ('li', 'call', 'tail'):
+            u2 = _units(out, cur, 2)
+            if u2:
+                yield u2
         if u1:
             yield u1
     elif k in ('call', 'tail'):
